@@ -102,3 +102,16 @@ pub broadcast group xml_log_lemmas { lemma_prefix_push, lemma_seg_push, lemma_pr
 // R11: `E == b"lit"` on byte slices: std PartialEq for slices = same length and elementwise equal
 #[verifier::external_body]
 pub fn bytes_eq(a: &[u8], b: &[u8]) -> (r: bool) ensures r == (a@ == b@) { unimplemented!() }
+
+// reader.read_text(end): the text content of a leaf element (ASSUMED: consumes events, records one TextOf item)
+pub struct CowStr { pub v: Vec<u8> }
+pub struct ParseIntError;
+impl NsReader {
+    #[verifier::external_body]
+    pub fn read_text(&mut self, end: QName) -> (r: Result<CowStr, XmlError>)
+        ensures
+            final(self).remaining@.len() <= old(self).remaining@.len(),
+            r is Ok ==> final(self).log@ == old(self).log@.push(Item::TextOf(r->Ok_0.v@)),
+            r is Err ==> is_prefix(old(self).log@, final(self).log@),
+    { unimplemented!() }
+}
